@@ -24,6 +24,7 @@ COUNTS = {
     "wrecv": (4000, 120000),
     "wrecv-long": (2, 10),
     "win": (6000, 100000),
+    "cfg": (3000, 60000),
 }
 
 def nontrivial_rule(suite):
@@ -35,6 +36,7 @@ def nontrivial_rule(suite):
         "wrecv": "distinct scripts in which the worker performed at least one receive and one send",
         "wrecv-long": "distinct scripts (each > 65 000 blocks)",
         "win": "distinct operation sequences with at least two operations",
+        "cfg": "distinct argument-vector families (setting groups x 5 key-order-preserving orders) with at least two groups",
     }.get(suite, "distinct cases")
 
 def is_nontrivial(suite, case, impl):
@@ -47,6 +49,8 @@ def is_nontrivial(suite, case, impl):
         return case.count(",") >= 1
     if suite in ("wsend-long", "wrecv-long"):
         return True
+    if suite == "cfg":
+        return case.count("|") >= 1
     return True
 
 W_ASSUME = ["virtual clock hook (cfg rs_tftpd_verif) supplies time inside Worker::send_file; receive results are scripted",
@@ -61,7 +65,10 @@ PROPS = {
     "C11": {"suites": ["codec-enc", "codec-dec"], "monitor": True,
             "title": "codec round trip and wire layout"},
     "C15": {"suites": ["wsend-long", "wrecv-long"], "monitor": True, "title": "block-number wrap-around", "assumptions": W_ASSUME},
-    "C16": {"suites": ["wsend", "wrecv"], "monitor": True, "title": "duplicate-packets mode", "assumptions": W_ASSUME},
+    "C16": {"suites": ["wsend", "wrecv", "cfg"], "monitor": True, "title": "duplicate-packets mode", "assumptions": W_ASSUME},
+    "C17": {"suites": ["cfg"], "monitor": True, "title": "command-line configuration",
+            "assumptions": ["Path::exists and IpAddr::from_str are oracles: evaluated by the harness on every token and handed to the model",
+                            "-h / --help exits the process and is not exercised in-process"]},
     "C18": {"suites": ["win"], "monitor": True, "title": "window buffer contract",
             "assumptions": ["files are real temp files opened read-only / created / read+append as in the unit tests"]},
 }
